@@ -455,6 +455,8 @@ pub struct StageReport {
     pub coalesced_ops: String,
     pub coalesced_live_out: String,
     pub coalesced_edges: String,
+    /// the renaming applied by coalescing: `v<merged>=v<representative>,…`
+    pub coalesced_map: String,
     /// `color_interference_graph`: `Ok(stack)` (bottom first) or `Err(spills)`
     pub stack: Option<String>,
     pub spills: Option<String>,
@@ -469,6 +471,52 @@ pub struct StageReport {
 pub fn liveness(ops: &OpList, ignore_constant_regs: bool) -> String {
     let nm = Namer::for_ops(&ops.ops);
     sets_text(&access::liveness_analysis(&ops.ops, ignore_constant_regs), &nm)
+}
+
+/// One run of the real liveness → interference graph → coalescing on `ops`, plus the renaming the
+/// coalescing applied: (coalesced ops, pairs (register, the register it was merged into)).
+/// The pairs are read off `reg_to_node_map` and the node weights before/after `coalesce_registers`.
+pub(crate) fn coalesce_with_map(ops: &[Op]) -> (Vec<Op>, Vec<(VirtualRegister, VirtualRegister)>) {
+    let live_out = access::liveness_analysis(ops, true);
+    let (mut graph, mut reg_to_node) = register_allocator::create_interference_graph(ops, &live_out);
+    let initial: HashMap<NodeIndex, VirtualRegister> =
+        graph.node_indices().map(|n| (n, graph[n].clone())).collect();
+    let regs: BTreeSet<VirtualRegister> = reg_to_node.keys().cloned().collect();
+    let (cops, _) =
+        register_allocator::coalesce_registers(ops, live_out, &mut graph, &mut reg_to_node);
+    let mut pairs = vec![];
+    for r in regs {
+        let mut cur = r.clone();
+        let mut fuel = initial.len() + 1;
+        let rep = loop {
+            let Some(ix) = reg_to_node.get(&cur) else { break cur };
+            if let Some(w) = graph.node_weight(*ix) {
+                break w.clone();
+            }
+            match initial.get(ix) {
+                Some(next) if fuel > 0 && *next != cur => {
+                    cur = next.clone();
+                    fuel -= 1;
+                }
+                _ => break cur,
+            }
+        };
+        if rep != r {
+            pairs.push((r, rep));
+        }
+    }
+    (cops, pairs)
+}
+
+fn regmap_text(pairs: &[(VirtualRegister, VirtualRegister)], nm: &Namer) -> String {
+    if pairs.is_empty() {
+        return "-".into();
+    }
+    pairs
+        .iter()
+        .map(|(a, b)| format!("{}={}", nm.reg(a), nm.reg(b)))
+        .collect::<Vec<_>>()
+        .join(",")
 }
 
 pub fn stages(ops: &OpList) -> StageReport {
@@ -487,6 +535,7 @@ pub fn stages(ops: &OpList) -> StageReport {
     rep.coalesced_ops = ops_text(&cops, &nm, false);
     rep.coalesced_live_out = sets_text(&clive, &nm);
     rep.coalesced_edges = edges_text(&graph, &nm);
+    rep.coalesced_map = regmap_text(&coalesce_with_map(&ops.ops).1, &nm);
     match register_allocator::color_interference_graph(&mut graph, &cops, &clive) {
         Ok(stack) => {
             rep.stack = Some(nm.regs(stack.iter().map(|n| &graph[*n])));
@@ -731,6 +780,12 @@ pub struct AllocReport {
     pub error: String,
     /// the virtual-register ops the assignment was applied to (after spilling and coalescing)
     pub final_ops: String,
+    /// the op list the LAST colouring round started from (the input, or the result of the last `spill`)
+    pub pre_ops: String,
+    /// the renaming coalescing applied in that round (`v<merged>=v<representative>,…`), obtained by
+    /// running the real stages on `pre_ops` once more; `replayed` = that run reproduced `final_ops`
+    pub regmap: String,
+    pub replayed: bool,
     /// `v<k>=<pool register>` for every register of the pool's `used_by` sets
     pub assign: String,
     /// spill rounds: `<ops handed to spill>@<v=slot,…>` joined by `#` (`-` = no spilling)
@@ -758,6 +813,17 @@ pub fn allocate(ops: &OpList) -> AllocReport {
             rep.status = "ok".into();
             rep.allocated_len = allocated.len();
             rep.final_ops = ops_text(cap.final_ops.as_deref().unwrap_or(&[]), &nm, false);
+            let pre: Vec<Op> = match rounds.last() {
+                None => ops.ops.clone(),
+                Some(last) => {
+                    let set: FxHashSet<VirtualRegister> = last.slots.iter().map(|(r, _)| r.clone()).collect();
+                    access::spill(&last.ops, &set)
+                }
+            };
+            let (cops, pairs) = coalesce_with_map(&pre);
+            rep.pre_ops = ops_text(&pre, &nm, false);
+            rep.regmap = regmap_text(&pairs, &nm);
+            rep.replayed = ops_text(&cops, &nm, false) == rep.final_ops;
             let mut v = cap.pool.clone();
             v.sort();
             rep.assign = if v.is_empty() {
